@@ -13,6 +13,9 @@
 //! 2. totality exploration (`font`, `hostile`, `ift`): every public operation named by the property is driven on
 //!    the font-test-data corpus, on structured corruptions of it, on synthetic fonts with random hostile
 //!    bytecode, and on hostile IFT mapping tables / patches; outcome must be value / absence / error.
+#[path = "c02/charstring.rs"]
+mod charstring;
+
 use fv_harness::common::*;
 use read_fonts::types::{F2Dot14, GlyphId, Tag};
 use read_fonts::{FileRef, FontRef, TableProvider};
@@ -1689,6 +1692,16 @@ fn child_request(line: &str) -> String {
                 None => "bad-request".into(),
             }
         }
+        "cs" | "cse" => match charstring::parse_case(&t[1..]) {
+            Some(c) => {
+                let e2e = t[0] == "cse";
+                match catch(|| if e2e { charstring::cse_case(&c) } else { charstring::cs_case(&c) }) {
+                    Ok(r) => r,
+                    Err(m) => format!("panic at=[{}] {}", last_loc(), m.replace('\n', " ")),
+                }
+            }
+            None => "bad-request".into(),
+        },
         "hostile" => match parse_synth(&t[1..t.len() - 1]) {
             Some(sp) => {
                 let seed: u64 = t[t.len() - 1].parse().unwrap_or(0);
@@ -1987,6 +2000,53 @@ fn run(cfg: &Config, s: &mut Session) {
             "composite-dag-loads-within-the-time-cap",
             r == "none" || r.starts_with("ok "),
             || format!("family=dag2 depth={depth} {j}"),
+            || r.clone(),
+        );
+    }
+
+
+    // ---- 1c. CFF / CFF2 charstring evaluator: correspondence with Model/Charstring.lean + oracles
+    let n_cs = if thorough { 60000 } else { 6000 };
+    let cs_cases: Vec<charstring::Case> = (0..n_cs).map(|i| charstring::gen_case(&mut rng, i, false)).collect();
+    let jobs: Vec<String> = cs_cases.iter().map(|c| charstring::case_line("cs", c)).collect();
+    let res = run_jobs(&jobs, cap, nworkers);
+    for (c, (j, r)) in cs_cases.iter().zip(jobs.iter().zip(res.iter())) {
+        let value = r.starts_with("ok ") || r.starts_with("err:") || r.starts_with("gsubrs-err:") || r.starts_with("subrs-err:") || r == "blend-new-err";
+        s.oracle("charstring-evaluate-returns-ok-or-error-value", value, || j.clone(), || r.clone());
+        let class = r.split(|ch| ch == ' ' || ch == '(').next().unwrap_or("?");
+        s.count(&format!("cs:{}:{class}", c.family));
+        s.count(&format!("cs-outcome:{class}"));
+        s.case("charstring", j.clone(), r.clone());
+    }
+    // end to end through skrifa on hand-assembled CFF / CFF2 tables (outcome class only)
+    let n_cse = if thorough { 12000 } else { 1500 };
+    let cse_cases: Vec<charstring::Case> = (0..n_cse).map(|i| charstring::gen_case(&mut rng, i, true)).collect();
+    let jobs: Vec<String> = cse_cases.iter().map(|c| charstring::case_line("cse", c)).collect();
+    let res = run_jobs(&jobs, cap, nworkers);
+    for (c, (j, r)) in cse_cases.iter().zip(jobs.iter().zip(res.iter())) {
+        let t: Vec<&str> = r.split_whitespace().collect();
+        let value = t.len() == 4 && t[..3].iter().all(|x| *x == "ok" || x.starts_with("err:"));
+        s.oracle("cff-draw-returns-ok-or-error-value", value, || j.clone(), || r.clone());
+        let class = if value && t[0] == t[1] && t[1] == t[2] { t[0].to_string() } else { format!("mixed:{r}") };
+        s.count(&format!("cse:{}:{}", c.family, class.split('(').next().unwrap_or("?")));
+        s.case("charstring-e2e", j.clone(), class);
+    }
+    // fan-out chains: k^10 subroutine activations from ~ 25*k bytes (finding family, see known_findings.d/C02.json)
+    let fan_jobs: Vec<(usize, String)> = [2usize, 4, 16]
+        .iter()
+        .flat_map(|k| {
+            let c = charstring::fan_case(*k, 10);
+            vec![(*k, charstring::case_line("cs", &c)), (*k, charstring::case_line("cse", &c))]
+        })
+        .collect();
+    let res = run_jobs(&fan_jobs.iter().map(|(_, j)| j.clone()).collect::<Vec<_>>(), Duration::from_secs(if thorough { 20 } else { 8 }), 6);
+    for ((k, j), r) in fan_jobs.iter().zip(res.iter()) {
+        let cmd = j.split_whitespace().next().unwrap_or("?");
+        s.count(&format!("charstring-fan {cmd} k={k} depth=10: {}", r.split_whitespace().next().unwrap_or("?")));
+        s.oracle(
+            "charstring-fanout-evaluates-within-the-time-cap",
+            r.starts_with("ok "),
+            || format!("family=fan k={k} depth=10 {j}"),
             || r.clone(),
         );
     }
